@@ -5,7 +5,7 @@
    A label set is a set of <<name, value>> pairs (byte strings) with unique names.
    A record is [id, ts, line, attrs (sequence of <<name, value>>), doc (sequence of <<key, value>>)].
    Stage(st, mem, ts, line, L) = [keep, line, L, mem]; mem is the memory of stateful stages (distinct). *)
-EXTENDS Integers, Sequences, FiniteSets, Bytes, Regex, Labels, Names, Num
+EXTENDS Integers, Sequences, FiniteSets, Bytes, Regex, Labels, Names, Num, JsonDoc, Tmpl, Pattern
 
 PairsOf(seq) == {seq[i] : i \in DOMAIN seq}
 NamesOf(L) == {p[1] : p \in L}
@@ -67,36 +67,127 @@ EncLogfmt(doc) == IF doc = <<>> THEN <<>>
 RECURSIVE SetAll(_, _)
 SetAll(L, doc) == IF doc = <<>> THEN L ELSE SetAll(Set(L, doc[1][1], doc[1][2]), Tail(doc))     \* later duplicate wins
 
-\* ---- one stage
+Fld(r, f, default) == IF f \in DOMAIN r THEN r[f] ELSE default      \* optional record field
+
+\* ---- logfmt with quoting: a value is quoted when it is empty or contains a space, a quote or an equals sign
+NeedsQuote(v) == v = <<>> \/ \E i \in DOMAIN v : v[i] \in {32, 34, 61}
+EncLogfmtVal(v) == IF NeedsQuote(v) THEN EncStr(v) ELSE v
+RECURSIVE EncLogfmtQ(_)
+EncLogfmtQ(doc) == IF doc = <<>> THEN <<>>
+                   ELSE doc[1][1] \o <<61>> \o EncLogfmtVal(doc[1][2]) \o (IF Len(doc) = 1 THEN <<>> ELSE <<32>> \o EncLogfmtQ(Tail(doc)))
+
+\* ---- json: what the document's fields become
+RECURSIVE JsonAll(_, _, _)       \* (fields, L, vopen) -> [L, vopen]; sanitised key; null: no label; nested: present, value open
+JsonAll(fs, L, vo) == IF fs = <<>> THEN [L |-> L, vopen |-> vo]
+                      ELSE LET key == Sanitize(fs[1][1]) v == fs[1][2] IN
+                           IF v.k = "null" THEN JsonAll(Tail(fs), L, vo)
+                           ELSE IF IsScalar(v) THEN JsonAll(Tail(fs), Set(L, key, ScalarText(v)), vo \ {key})
+                           ELSE JsonAll(Tail(fs), Set(L, key, <<>>), vo \cup {key})
+RECURSIVE JsonSome(_, _, _, _)   \* only the exact key names listed; the key is the label name
+JsonSome(fs, want, L, vo) == IF fs = <<>> THEN [L |-> L, vopen |-> vo]
+                             ELSE LET key == fs[1][1] v == fs[1][2] IN
+                                  IF key \notin want \/ v.k = "null" THEN JsonSome(Tail(fs), want, L, vo)
+                                  ELSE IF IsScalar(v) THEN JsonSome(Tail(fs), want, Set(L, key, ScalarText(v)), vo \ {key})
+                                  ELSE JsonSome(Tail(fs), want, Set(L, key, <<>>), vo \cup {key})
+RECURSIVE JsonPaths(_, _, _, _, _, _)   \* (exprs <<label, path>>, doc, canon, L, vopen, opt)
+JsonPaths(es, doc, canon, L, vo, op) ==
+  IF es = <<>> THEN [L |-> L, vopen |-> vo, opt |-> op]
+  ELSE LET lb == es[1][1] w == Walk(doc, es[1][2]) IN
+       IF ~w.found THEN JsonPaths(Tail(es), doc, canon, IF Has(L, lb) THEN L ELSE Set(L, lb, <<>>), vo, IF Has(L, lb) THEN op ELSE op \cup {lb})   \* missing path: absent or empty
+       ELSE IF IsScalar(w.v) THEN JsonPaths(Tail(es), doc, canon, Set(L, lb, ScalarText(w.v)), vo \ {lb}, op \ {lb})
+       ELSE IF canon THEN JsonPaths(Tail(es), doc, canon, Set(L, lb, EncJson(w.v)), vo \ {lb}, op \ {lb})                \* containers: their raw text
+       ELSE JsonPaths(Tail(es), doc, canon, Set(L, lb, <<>>), vo \cup {lb}, op \ {lb})
+RECURSIVE UnpackFields(_, _, _)   \* string fields become labels, _entry the line, other types are ignored
+UnpackFields(fs, L, line) == IF fs = <<>> THEN [L |-> L, line |-> line]
+                             ELSE IF fs[1][2].k # "str" THEN UnpackFields(Tail(fs), L, line)
+                             ELSE IF fs[1][1] = S_entry THEN UnpackFields(Tail(fs), L, fs[1][2].s)
+                             ELSE UnpackFields(Tail(fs), Set(L, fs[1][1], fs[1][2].s), line)
+RECURSIVE LogfmtSome(_, _, _)     \* (doc, mapping <<key, label>>, L)
+LogfmtSome(doc, mp, L) == IF doc = <<>> THEN L
+                          ELSE LET hits == {k \in DOMAIN mp : mp[k][1] = doc[1][1]} IN
+                               LogfmtSome(Tail(doc), mp, IF hits = {} THEN L ELSE Set(L, mp[CHOOSE k \in hits : TRUE][2], doc[1][2]))
+
+\* ---- label_format / drop / keep / decolorize
+RECURSIVE ApplyRenames(_, _)      \* <<dst, src>> pairs in order: src's value moves to dst
+ApplyRenames(rs, L) == IF rs = <<>> THEN L
+                       ELSE LET dst == rs[1][1] src == rs[1][2] IN
+                            ApplyRenames(Tail(rs), IF Has(L, src) THEN Set(Del(L, src), dst, Get(L, src)) ELSE L)
+RECURSIVE ApplyTmpls(_, _, _, _)  \* all templates read ONE snapshot (after the renames); a failing one flags __error__ and sets nothing
+ApplyTmpls(ts, snap, L, line) == IF ts = <<>> THEN L
+                                 ELSE IF Fails(ts[1][2]) THEN ApplyTmpls(Tail(ts), snap, SetError(L), line)
+                                 ELSE ApplyTmpls(Tail(ts), snap, Set(L, ts[1][1], Expand(ts[1][2], LAMBDA n : Get(snap, n), line)), line)
+MatchersFor(ms, name) == SelectSeq(ms, LAMBDA m : m.label = name)
+\* a label is selected by a drop/keep list when it is named plainly, or has value matchers and all of them hold
+Selected(st, p) == LET ms == MatchersFor(Fld(st, "matchers", <<>>), p[1]) IN
+                   (p[1] \in PairsOf(st.labels) \/ ms # <<>>) /\ \A k \in DOMAIN ms : ValueMatch(ms[k].op, ms[k].val, ms[k].re, p[2])
+\* delete every SGR sequence ESC [ (digits and ;)* m and nothing else
+RECURSIVE SgrEnd(_, _)
+SgrEnd(s, i) == IF i <= Len(s) /\ (IsDig(s[i]) \/ s[i] = 59) THEN SgrEnd(s, i + 1) ELSE i
+RECURSIVE StripSGR(_, _)
+StripSGR(s, i) == IF i > Len(s) THEN <<>>
+                  ELSE IF s[i] = 27 /\ i + 1 <= Len(s) /\ s[i + 1] = 91 /\ SgrEnd(s, i + 2) <= Len(s) /\ s[SgrEnd(s, i + 2)] = 109
+                    THEN StripSGR(s, SgrEnd(s, i + 2) + 1)
+                  ELSE <<s[i]>> \o StripSGR(s, i + 1)
+
+\* ---- one stage.  Result: keep, line, L, mem; open: the step is outside the modelled grammar (entry not compared);
+\* lopen: labels unconstrained (malformed input: only __error__ is required); vopen: names whose VALUE is left open;
+\* opt: names that may be absent (if present they carry the stated value)
+R0(keep, line, L, mem, open) == [keep |-> keep, line |-> line, L |-> L, mem |-> mem, open |-> open, lopen |-> FALSE, vopen |-> {}, opt |-> {}]
+Malformed(line, L, mem) == [keep |-> TRUE, line |-> line, L |-> SetError(L), mem |-> mem, open |-> FALSE, lopen |-> TRUE, vopen |-> {}, opt |-> {}]
 Stage(st, mem, rec, line, L) ==
-  CASE st.t = "line" -> [keep |-> LineMatch(st.op, st.val, st.re, line), line |-> line, L |-> L, mem |-> mem, open |-> FALSE]
-    [] st.t = "label" -> LET r == Pred(st.pred, L) IN [keep |-> r.keep, line |-> line, L |-> r.L, mem |-> mem, open |-> r.open]
-    [] st.t = "logfmt" -> [keep |-> TRUE, line |-> line, L |-> SetAll(L, rec.doc), mem |-> mem, open |-> line # EncLogfmt(rec.doc)]
+  CASE st.t = "line" -> R0(LineMatch(st.op, st.val, st.re, line), line, L, mem, FALSE)
+    [] st.t = "label" -> LET r == Pred(st.pred, L) IN R0(r.keep, line, r.L, mem, r.open)
+    [] st.t = "logfmt" ->
+         IF Fld(rec, "lmal", FALSE) THEN Malformed(line, L, mem)
+         ELSE IF Fld(st, "labels", <<>>) = <<>> /\ Fld(st, "exprs", <<>>) = <<>> THEN R0(TRUE, line, SetAll(L, rec.doc), mem, line # EncLogfmt(rec.doc) /\ line # EncLogfmtQ(rec.doc))
+         ELSE R0(TRUE, line, LogfmtSome(rec.doc, [k \in DOMAIN Fld(st, "labels", <<>>) |-> <<st.labels[k], st.labels[k]>>] \o Fld(st, "exprs", <<>>), L), mem,
+                 line # EncLogfmt(rec.doc) /\ line # EncLogfmtQ(rec.doc))
+    [] st.t = "json" ->
+         IF rec.jmal \/ rec.jdoc.k # "obj" THEN Malformed(line, L, mem)
+         ELSE IF st.exprs # <<>> THEN
+                LET r == JsonPaths([k \in DOMAIN st.labels |-> <<st.labels[k], << [t |-> "key", key |-> st.labels[k]] >> >>] \o st.exprs,
+                                   rec.jdoc, rec.jcanon, L, {}, {})
+                IN [keep |-> TRUE, line |-> line, L |-> r.L, mem |-> mem, open |-> FALSE, lopen |-> FALSE, vopen |-> r.vopen, opt |-> r.opt]
+         ELSE LET r == IF st.labels = <<>> THEN JsonAll(rec.jdoc.fields, L, {}) ELSE JsonSome(rec.jdoc.fields, PairsOf(st.labels), L, {})
+              IN [keep |-> TRUE, line |-> line, L |-> r.L, mem |-> mem, open |-> FALSE, lopen |-> FALSE, vopen |-> r.vopen, opt |-> {}]
+    [] st.t = "unpack" ->
+         IF rec.jmal \/ rec.jdoc.k # "obj" THEN Malformed(line, L, mem)
+         ELSE LET r == UnpackFields(rec.jdoc.fields, L, line) IN R0(TRUE, r.line, r.L, mem, FALSE)
+    [] st.t = "pattern" -> R0(TRUE, line, SetAll(L, PatMatch(st.parts, line)), mem, FALSE)
     [] st.t = "distinct" ->
-         IF ~Has(L, st.label) THEN [keep |-> TRUE, line |-> line, L |-> L, mem |-> mem, open |-> FALSE]
-         ELSE LET v == Get(L, st.label) IN
-              [keep |-> v \notin mem, line |-> line, L |-> L, mem |-> mem \cup {v}, open |-> FALSE]
-    [] st.t = "drop" -> [keep |-> TRUE, line |-> line, L |-> {p \in L : p[1] \notin PairsOf(st.labels)}, mem |-> mem, open |-> FALSE]
-    [] st.t = "keep" -> [keep |-> TRUE, line |-> line, L |-> {p \in L : p[1] \in PairsOf(st.labels)}, mem |-> mem, open |-> FALSE]
+         IF ~Has(L, st.label) THEN R0(TRUE, line, L, mem, FALSE)
+         ELSE LET v == Get(L, st.label) IN R0(v \notin mem, line, L, mem \cup {v}, FALSE)
+    [] st.t = "drop" -> R0(TRUE, line, {p \in L : ~Selected(st, p)}, mem, FALSE)
+    [] st.t = "keep" -> R0(TRUE, line, {p \in L : Selected(st, p)}, mem, FALSE)
+    [] st.t = "labelfmt" -> LET L1 == ApplyRenames(st.renames, L) IN R0(TRUE, line, ApplyTmpls(st.tmpls, L1, L1, line), mem, FALSE)
+    [] st.t = "linefmt" -> IF Fails(st.parts) THEN R0(TRUE, line, SetError(L), mem, FALSE)
+                           ELSE R0(TRUE, Expand(st.parts, LAMBDA n : Get(L, n), line), L, mem, FALSE)
+    [] st.t = "decolorize" -> R0(TRUE, StripSGR(line, 1), L, mem, FALSE)
 
 StageWellFormed(st) ==
   CASE st.t = "line" -> (st.op \in {"re", "nre"} => st.val = ReText(st.re))
     [] st.t = "label" -> PredWellFormed(st.pred)
+    [] st.t \in {"drop", "keep"} -> LET ms == Fld(st, "matchers", <<>>) IN \A k \in DOMAIN ms : ms[k].op \in {"re", "nre"} => ms[k].val = ReText(ms[k].re)
+    [] st.t = "labelfmt" -> \A k \in DOMAIN st.renames : st.renames[k][1] # st.renames[k][2]
     [] OTHER -> TRUE
 
 \* the text "| drop a != x" denotes a drop with a value matcher: a case must not mean "drop a" followed by a line filter
 UnambiguousText(stages) == \A k \in 1..(Len(stages) - 1) :
-                              stages[k].t \in {"drop", "keep"} => ~(stages[k + 1].t = "line" /\ stages[k + 1].op \in {"neq", "nre"})
+                              stages[k].t \in {"drop", "keep"} /\ Fld(stages[k], "matchers", <<>>) = <<>> => ~(stages[k + 1].t = "line" /\ stages[k + 1].op \in {"neq", "nre"})
 
 \* ---- a pipeline on one record: first rejecting stage ends it; mems[k] is the memory of stage k
-RECURSIVE RunFrom(_, _, _, _, _, _, _)
-RunFrom(stages, k, mems, rec, line, L, open) ==
-  IF k > Len(stages) THEN [keep |-> TRUE, line |-> line, L |-> L, mems |-> mems, open |-> open]
+\* (a stage that runs after labels became open/optional makes the whole entry open: cases put parsers last or alone)
+RECURSIVE RunFrom(_, _, _, _, _, _, _, _)
+RunFrom(stages, k, mems, rec, line, L, open, lo) ==
+  IF k > Len(stages) THEN [keep |-> TRUE, line |-> line, L |-> L, mems |-> mems, open |-> open, lopen |-> lo.lopen, vopen |-> lo.vopen, opt |-> lo.opt]
   ELSE LET r == Stage(stages[k], mems[k], rec, line, L)
            mems2 == [mems EXCEPT ![k] = r.mem]
-       IN IF ~r.keep THEN [keep |-> FALSE, line |-> line, L |-> r.L, mems |-> mems2, open |-> open \/ r.open]
-          ELSE RunFrom(stages, k + 1, mems2, rec, r.line, r.L, open \/ r.open)
-Run(stages, mems, rec) == RunFrom(stages, 1, mems, rec, rec.line, RecordLabels(rec), FALSE)
+           loose == lo.lopen \/ lo.vopen # {} \/ lo.opt # {}
+           lo2 == [lopen |-> lo.lopen \/ r.lopen, vopen |-> (lo.vopen \cup r.vopen), opt |-> (lo.opt \cup r.opt)]
+       IN IF ~r.keep THEN [keep |-> FALSE, line |-> line, L |-> r.L, mems |-> mems2, open |-> open \/ r.open \/ (loose /\ stages[k].t \in {"label", "distinct", "keep", "drop", "labelfmt", "linefmt"}),
+                           lopen |-> lo2.lopen, vopen |-> lo2.vopen, opt |-> lo2.opt]
+          ELSE RunFrom(stages, k + 1, mems2, rec, r.line, r.L, open \/ r.open \/ (loose /\ stages[k].t \in {"label", "distinct", "keep", "drop", "labelfmt", "linefmt"}), lo2)
+Run(stages, mems, rec) == RunFrom(stages, 1, mems, rec, rec.line, RecordLabels(rec), FALSE, [lopen |-> FALSE, vopen |-> {}, opt |-> {}])
 EmptyMems(stages) == [k \in DOMAIN stages |-> {}]
 
 \* ---- selector on a record (engine-side or storage-side: same meaning)
@@ -109,7 +200,7 @@ ResultFrom(ms, stages, recs, i, mems) ==
   IF i > Len(recs) THEN <<>>
   ELSE IF ~SelMatches(ms, recs[i]) THEN ResultFrom(ms, stages, recs, i + 1, mems)
   ELSE LET r == Run(stages, mems, recs[i]) IN
-       (IF r.keep THEN << [id |-> recs[i].id, ts |-> recs[i].ts, line |-> r.line, L |-> r.L, open |-> r.open] >> ELSE <<>>)
+       (IF r.keep THEN << [id |-> recs[i].id, ts |-> recs[i].ts, line |-> r.line, L |-> r.L, open |-> r.open, lopen |-> r.lopen, vopen |-> r.vopen, opt |-> r.opt] >> ELSE <<>>)
        \o ResultFrom(ms, stages, recs, i + 1, r.mems)
 LogResult(ms, stages, recs) == ResultFrom(ms, stages, recs, 1, EmptyMems(stages))
 \* does any evaluation step of the query fall outside the modelled grammar? (then only relations are checked)
